@@ -100,10 +100,10 @@ func (e *Exec) invoke(fr *Frame, st State, cc *ssa.CallCommon, recv Val, args []
 			e.oblige(st, fr.fn, "nopanic.nil", "", pos, c.False)
 			return nil
 		}
-		if int(tag.C) >= len(e.P.tagType) {
+		if e.P.typeOfTag(tag.C) == nil {
 			e.fail("invoke on unknown tag")
 		}
-		cands = []types.Type{e.P.tagType[tag.C]}
+		cands = []types.Type{e.P.typeOfTag(tag.C)}
 	} else {
 		st = e.oblige(st, fr.fn, "nopanic.nil", "", pos, c.Ne(tag, c.Const(64, 0)))
 		cands = e.P.implementers(iface)
